@@ -630,6 +630,12 @@ func (es *SearchEngineState) CHECKPOINT() {
 	checkpoint := es.Copy()
 	// a choice point must not see bindings made on the path that is abandoned later
 	checkpoint.environment = es.environment.Copy().Hashmap()
+	// nor bindings made inside the iterations of the named loops that are open
+	for i := 0; i < int(checkpoint.loopStack.Size()); i++ {
+		if loop := checkpoint.loopStack.Index(i); loop.name != "" {
+			loop.variables = loop.variables.Copy().Hashmap()
+		}
+	}
 	es.backtrack.Push(*checkpoint)
 }
 
